@@ -1142,9 +1142,13 @@ class EOM:
             )
 
         # Need to solve wallWidth and wallOffset. For this, put wallParams in a 1D array
-        # NOT including the first offset which we keep at 0.
+        # NOT including the offset of the reference field, which we keep at 0. The
+        # reference field is the first one that changes between the two phases (a field
+        # with the same value in both phases has no wall that could fix the position).
+        vevChange = np.abs(np.asarray(vevLowT - vevHighT)).reshape(-1)
+        pinnedField = int(np.argmax(vevChange > 1e-10 * np.max(vevChange)))
         wallArray: np.ndarray = np.concatenate(
-            (wallParams.widths, wallParams.offsets[1:])
+            (wallParams.widths, np.delete(wallParams.offsets, pinnedField))
         )  ## should work even if offsets is just 1 element
 
         ## first width, then offset
@@ -1166,7 +1170,7 @@ class EOM:
         def actionWrapper(
             wallArray: np.ndarray, *args: Fields | npt.ArrayLike | Polynomial
         ) -> float:
-            return self.action(self._toWallParams(wallArray), *args)
+            return self.action(self._toWallParams(wallArray, pinnedField), *args)
 
         Delta00 = boltzmannResults.Deltas.Delta00  # pylint: disable=invalid-name
         sol = scipy.optimize.minimize(
@@ -1179,7 +1183,8 @@ class EOM:
 
         ## Put the resulting width, offset back in WallParams format
         wallParams = (
-            multiplier * self._toWallParams(sol.x) + (1 - multiplier) * wallParams
+            multiplier * self._toWallParams(sol.x, pinnedField)
+            + (1 - multiplier) * wallParams
         )
 
         fields, dPhidz = self.wallProfile(
@@ -1214,10 +1219,8 @@ class EOM:
 
         return pressure, wallParams, boltzmannResults, boltzmannBackground
 
-    def _toWallParams(self, wallArray: np.ndarray) -> WallParams:
-        offsets: np.ndarray = np.concatenate(
-            (np.array([0.0]), wallArray[self.nbrFields :])
-        )
+    def _toWallParams(self, wallArray: np.ndarray, pinnedField: int = 0) -> WallParams:
+        offsets: np.ndarray = np.insert(wallArray[self.nbrFields :], pinnedField, 0.0)
         return WallParams(widths=wallArray[: self.nbrFields], offsets=offsets)
 
     def _updateGrid(self, wallParams: WallParams, velocityMid: float) -> None:
